@@ -250,6 +250,33 @@ theorem missing_move_to_after_close (N : Num ν) (na : Nat) (st : St ν) (s : Sr
 
 /-! ### Round trip -/
 
+/-- `print_is_parseable` — the structural half of the round trip, with NO hypothesis on numeric
+values: if printed numbers are tokens (`TokenOK`: accepted by `f32::from_str`, not starting
+with a separator, one lexer token before a space / the end), then for every well-nested call
+list with `na` attributes per endpoint the text `impl Debug for PathSlice` prints is accepted by
+`parse` (result `Ok`), and the calls it sends are the original calls with every number replaced
+by the value read back from its printed form (`rvCall`): same commands, same structure, same
+`close` flags. -/
+theorem print_is_parseable (N : Num ν) (pn : ν → List Char) (ht : TokenOK pn) (na : Nat)
+    (tr : List (PCall ν)) (hwn : WellNested tr) (hal : AttrsLen na tr) :
+    (parse N na none (printCalls pn tr)).outcome = .ok ∧
+    (parse N na none (printCalls pn tr)).trace = tr.map (rvCall N pn) := by
+  have h := loop_print_parse N pn ht na tr false hwn hal ((printCalls pn tr).length + 1)
+    (St.init N) (Src.new (printCalls pn tr)) rfl (by simp [Src.new])
+    (fun h => by cases h) (fun h => ⟨rfl, rfl⟩)
+  have h' : (parse N na none (printCalls pn tr)).trace = tr.map (rvCall N pn) ∧
+      (parse N na none (printCalls pn tr)).outcome = .ok := by
+    simpa [parse, St.init] using h
+  exact ⟨h'.2, h'.1⟩
+
+/-- `print_is_parseable` for every printer with the `{:?}` number shape
+`-? D+ (. D+)? (e -? D+)?` — no other hypothesis. -/
+theorem print_is_parseable_debug_shape (N : Num ν) (pn : ν → List Char)
+    (hshape : ∀ x, ∃ neg d1 f e, pn x = debugText neg d1 f e ∧ ShapeOK d1 f e) (na : Nat)
+    (tr : List (PCall ν)) (hwn : WellNested tr) (hal : AttrsLen na tr) :
+    (parse N na none (printCalls pn tr)).outcome = .ok :=
+  (print_is_parseable N pn (tokenOK_of_debugShape pn hshape) na tr hwn hal).1
+
 /-- `print_parse_roundtrip`: take any stored path — represented by the well-nested builder calls
 that created it, every endpoint carrying `na` custom attributes — print it as
 `impl Debug for PathSlice` does (`printCalls`, the text between the quotes) and parse the text
@@ -291,16 +318,131 @@ theorem print_parse_roundtrip_debug_shape (N : Num ν) (pn : ν → List Char)
     (parse N na none (printCalls pn tr)).outcome = .ok :=
   print_parse_roundtrip N pn (printOK_of_debug_shape N pn hshape hval) na tr hwn hal
 
+/-! ### The command automaton: implicit repetition, relative coordinates, smooth curves -/
+
+/-- `implicit_command_rule`: the command of an iteration is the current character if it is an
+ASCII letter, otherwise the implicit command; after an iteration with command `cmd` that
+completes, the implicit command is `l` after `m`, `L` after `M`, `m` after `z`, `M` after `Z`,
+and `cmd` itself otherwise (so `M 0 0 1 1 2 2` continues with implicit `L`, `m … ` with `l`,
+and any other command repeats).  The parse starts with implicit `M`. -/
+theorem implicit_command_rule (N : Num ν) (na : Nat) (st st' : St ν) (s s' : Src)
+    (em : List (Emit ν)) (h : step N na st s = .cont st' s' em) :
+    cmdOf st s = (if s.cur.isAlpha then s.cur else st.implicit) ∧
+    st'.implicit = nextImplicit (cmdOf st s) ∧
+    nextImplicit 'm' = 'l' ∧ nextImplicit 'M' = 'L' ∧ nextImplicit 'z' = 'm' ∧
+    nextImplicit 'Z' = 'M' ∧
+    (∀ c, c ≠ 'm' → c ≠ 'M' → c ≠ 'z' → c ≠ 'Z' → nextImplicit c = c) ∧
+    (St.init N).implicit = 'M' := by
+  have hk := step_keeps N na st s
+  rw [h] at hk
+  refine ⟨rfl, hk.1, by decide, by decide, by decide, by decide, ?_, rfl⟩
+  intro c h1 h2 h3 h4
+  simp [nextImplicit, h1, h2, h3, h4]
+
+/-- relative commands add the current position (`current_position` before the command) to each
+coordinate pair; absolute commands do not -/
+theorem relative_rule (N : Num ν) (cur : Pt ν) (x y : ν) :
+    relX N true cur x = N.add x cur.1 ∧ relY N true cur y = N.add y cur.2 ∧
+    relX N false cur x = x ∧ relY N false cur y = y := ⟨rfl, rfl, rfl, rfl⟩
+
+/-- `parser_smooth_reflects` (the SVG rule, mirror of C15's): `S`/`s` draws a cubic whose first
+control point is the reflection `cur + (cur - prev)` of the remembered second control point
+about the current position, or the current position itself if nothing is remembered; it then
+remembers its own second control point. -/
+theorem parser_smooth_reflects (N : Num ν) (na : Nat) (st st' : St ν) (s s' : Src)
+    (em : List (Emit ν)) (hc : cmdOf st s = 'S' ∨ cmdOf st s = 's')
+    (h : step N na st s = .cont st' s' em) :
+    (∃ c2 p a, em.map Prod.snd = [.cubic (smoothCtrl N st.cur st.prevCubic) c2 p a] ∧
+      st'.prevCubic = some c2 ∧ st'.cur = p) ∧
+    (∀ cur k : Pt ν, smoothCtrl N cur (some k) =
+      (N.add cur.1 (N.sub cur.1 k.1), N.add cur.2 (N.sub cur.2 k.2))) ∧
+    (∀ cur : Pt ν, smoothCtrl N cur none = cur) := by
+  refine ⟨?_, fun _ _ => rfl, fun _ => rfl⟩
+  rcases hc with hc | hc
+  · have hm : edgeCmd N na (cmdOf st s) st = some (cmdS N na false st) := by
+      rw [hc]; simp [edgeCmd]
+    obtain ⟨o, ho, hem, hst⟩ := step_edge_inv N na st st' s s' em _ hm h
+    obtain ⟨c2, p, a, h1, h2, h3⟩ := cmdS_inv N na _ st _ _ _ ho
+    exact ⟨c2, p, a, by rw [hem, h1], by rw [hst, hc]; simp [St.after, isCubicCmd, h2],
+      by rw [hst]; simp [St.after, h3]⟩
+  · have hm : edgeCmd N na (cmdOf st s) st = some (cmdS N na true st) := by
+      rw [hc]; simp [edgeCmd]
+    obtain ⟨o, ho, hem, hst⟩ := step_edge_inv N na st st' s s' em _ hm h
+    obtain ⟨c2, p, a, h1, h2, h3⟩ := cmdS_inv N na _ st _ _ _ ho
+    exact ⟨c2, p, a, by rw [hem, h1], by rw [hst, hc]; simp [St.after, isCubicCmd, h2],
+      by rw [hst]; simp [St.after, h3]⟩
+
+/-- the same for `T`/`t` and quadratic curves; the remembered point is the reflected control
+point itself -/
+theorem parser_smooth_quad_reflects (N : Num ν) (na : Nat) (st st' : St ν) (s s' : Src)
+    (em : List (Emit ν)) (hc : cmdOf st s = 'T' ∨ cmdOf st s = 't')
+    (h : step N na st s = .cont st' s' em) :
+    ∃ p a, em.map Prod.snd = [.quad (smoothCtrl N st.cur st.prevQuad) p a] ∧
+      st'.prevQuad = some (smoothCtrl N st.cur st.prevQuad) ∧ st'.cur = p := by
+  rcases hc with hc | hc
+  · have hm : edgeCmd N na (cmdOf st s) st = some (cmdT N na false st) := by
+      rw [hc]; simp [edgeCmd]
+    obtain ⟨o, ho, hem, hst⟩ := step_edge_inv N na st st' s s' em _ hm h
+    obtain ⟨p, a, h1, h2, h3⟩ := cmdT_inv N na _ st _ _ _ ho
+    exact ⟨p, a, by rw [hem, h1], by rw [hst, hc]; simp [St.after, isQuadCmd, h2],
+      by rw [hst]; simp [St.after, h3]⟩
+  · have hm : edgeCmd N na (cmdOf st s) st = some (cmdT N na true st) := by
+      rw [hc]; simp [edgeCmd]
+    obtain ⟨o, ho, hem, hst⟩ := step_edge_inv N na st st' s s' em _ hm h
+    obtain ⟨p, a, h1, h2, h3⟩ := cmdT_inv N na _ st _ _ _ ho
+    exact ⟨p, a, by rw [hem, h1], by rw [hst, hc]; simp [St.after, isQuadCmd, h2],
+      by rw [hst]; simp [St.after, h3]⟩
+
+/-- what is remembered: `C`/`c` remembers its second control point, `Q`/`q` its control point -/
+theorem parser_ctrl_recorded (N : Num ν) (na : Nat) (st st' : St ν) (s s' : Src)
+    (em : List (Emit ν)) (h : step N na st s = .cont st' s' em) :
+    ((cmdOf st s = 'C' ∨ cmdOf st s = 'c') →
+      ∃ c1 c2 p a, em.map Prod.snd = [.cubic c1 c2 p a] ∧ st'.prevCubic = some c2 ∧
+        st'.cur = p) ∧
+    ((cmdOf st s = 'Q' ∨ cmdOf st s = 'q') →
+      ∃ c p a, em.map Prod.snd = [.quad c p a] ∧ st'.prevQuad = some c ∧ st'.cur = p) := by
+  constructor
+  · intro hc
+    have hm : ∃ rel, edgeCmd N na (cmdOf st s) st = some (cmdC N na rel st) := by
+      rcases hc with hc | hc <;> (rw [hc]; simp [edgeCmd])
+    obtain ⟨rel, hm⟩ := hm
+    obtain ⟨o, ho, hem, hst⟩ := step_edge_inv N na st st' s s' em _ hm h
+    obtain ⟨c1, c2, p, a, h1, h2, h3⟩ := cmdC_inv N na _ st _ _ _ ho
+    refine ⟨c1, c2, p, a, by rw [hem, h1], ?_, by rw [hst]; simp [St.after, h3]⟩
+    rcases hc with hc | hc <;> (rw [hst, hc]; simp [St.after, isCubicCmd, h2])
+  · intro hc
+    have hm : ∃ rel, edgeCmd N na (cmdOf st s) st = some (cmdQ N na rel st) := by
+      rcases hc with hc | hc <;> (rw [hc]; simp [edgeCmd])
+    obtain ⟨rel, hm⟩ := hm
+    obtain ⟨o, ho, hem, hst⟩ := step_edge_inv N na st st' s s' em _ hm h
+    obtain ⟨c, p, a, h1, h2, h3⟩ := cmdQ_inv N na _ st _ _ _ ho
+    refine ⟨c, p, a, by rw [hem, h1], ?_, by rw [hst]; simp [St.after, h3]⟩
+    rcases hc with hc | hc <;> (rw [hst, hc]; simp [St.after, isQuadCmd, h2])
+
+/-- … and what is forgotten: any command other than `C c S s` clears the remembered cubic control
+point, any command other than `Q q T t` the quadratic one (so a smooth command after anything
+else — a line, an arc, a move-to, a curve of the other degree — starts at the current
+position). -/
+theorem parser_ctrl_forgotten (N : Num ν) (na : Nat) (st st' : St ν) (s s' : Src)
+    (em : List (Emit ν)) (h : step N na st s = .cont st' s' em) :
+    (isCubicCmd (cmdOf st s) = false → st'.prevCubic = none) ∧
+    (isQuadCmd (cmdOf st s) = false → st'.prevQuad = none) := by
+  have hk := step_keeps N na st s
+  rw [h] at hk
+  exact hk.2
+
 /-! ### Non-vacuity -/
 
 /-- a trivial numeric instance: all values are `()`; every arc is one quadratic segment -/
 def unitNum : Num Unit where
   zero := ()
+  one := ()
   add := fun _ _ => ()
   sub := fun _ _ => ()
+  mul := fun _ _ => ()
   ofLexeme := fun _ => ()
   arcStraight := fun _ => false
-  arc := fun _ a => some [(((), ()), ((), ()), a.attrs)]
+  arc := fun _ _ => some [(((), ()), ((), ()), ())]
 
 /-- the arc hypothesis of `parse_no_panic` holds for `unitNum` -/
 example : ∀ pos a, unitNum.arc pos a ≠ none := by intro pos a; simp [unitNum]
@@ -327,12 +469,51 @@ example : (parse unitNum 0 none "M 0 0 L 1 1 Z".toList).trace =
     (parse unitNum 0 none "M 0 0 L 1 x".toList).outcome = .err (.number [] 0 10) := by
   decide
 
+/-- integer-valued numbers (digits before any `.`/`e` only): enough to watch the automaton -/
+def intOfLexeme (l : List Char) : Int :=
+  if l.head? = some '-' then
+    -(((l.drop 1).takeWhile Char.isDigit).foldl (fun a c => a * 10 + (c.toNat - 48)) 0 : Nat)
+  else ((l.takeWhile Char.isDigit).foldl (fun a c => a * 10 + (c.toNat - 48)) 0 : Nat)
+
+def intNum : Num Int where
+  zero := 0
+  one := 1
+  add := (· + ·)
+  sub := (· - ·)
+  mul := (· * ·)
+  ofLexeme := intOfLexeme
+  arcStraight := fun _ => true
+  arc := fun _ _ => some []
+
+/-- implicit repetition (`M` then implicit `L`; `m` then implicit relative `l`), relative
+coordinates, `H`/`V`, close returning to the sub-path start, smooth reflection:
+`S` after `C 1 2 3 4 5 6` starts at `(5,6) + ((5,6) - (3,4)) = (7,8)`; `T` after a line starts at
+the current point; a second `T` reflects the first one's control point. -/
+example :
+    (parse intNum 0 none "M 0 0 1 1 2 2".toList).trace =
+      [.begin (0, 0) [], .line (1, 1) [], .line (2, 2) [], .end_ false] ∧
+    (parse intNum 0 none "m 1 1 2 2 3 3".toList).trace =
+      [.begin (1, 1) [], .line (3, 3) [], .line (6, 6) [], .end_ false] ∧
+    (parse intNum 1 none "M 5 5 9 h 2 8 V 1 7 z l 1 1 6".toList).outcome =
+      .err (.missingMoveTo 'l' 0 22) ∧
+    (parse intNum 1 none "M 5 5 9 h 2 8 V 1 7 z".toList).trace =
+      [.begin (5, 5) [9], .line (7, 5) [8], .line (7, 1) [7], .end_ true] ∧
+    (parse intNum 0 none "M0 0C1 2 3 4 5 6S9 9 10 10".toList).trace =
+      [.begin (0, 0) [], .cubic (1, 2) (3, 4) (5, 6) [], .cubic (7, 8) (9, 9) (10, 10) [],
+       .end_ false] ∧
+    (parse intNum 0 none "M0 0L4 4T6 4T8 4".toList).trace =
+      [.begin (0, 0) [], .line (4, 4) [], .quad (4, 4) (6, 4) [], .quad (8, 4) (8, 4) [],
+       .end_ false] := by
+  decide
+
 /-- a two-valued number type whose printer has the `{:?}` shapes: `true ↦ "1.5"`,
 `false ↦ "-2e-7"` -/
 def boolNum : Num Bool where
   zero := false
+  one := true
   add := fun a _ => a
   sub := fun a _ => a
+  mul := fun a _ => a
   ofLexeme := fun l => l == ['1', '.', '5']
   arcStraight := fun _ => true
   arc := fun _ _ => some []
